@@ -48,6 +48,8 @@ CHECKS = {
  "C16": dict(category="fault_enumeration",
    text="Model-driven fault enumeration: spec/Faults.tla defines the token-level corruption actions and TLC enumerates every fault (quick) / every fault pair (thorough) from components and factor files over an alphabet of atoms, plus token soups; each text is run through every public library entry point (catch_unwind) and through the real program, with valid texts of every kind and option atoms; the oracle is the terminal-state set of the specification (Trace_C16): Ok / typed error, deliberate exit code with stderr - Panic, signal, timeout are not states. This is the right level because the property is the absence of a bad terminal state over a generated input space, not a functional relation.",
    design="5/C16", technique="TLA+ fault actions + TLC enumeration of fault sequences + terminal-state trace oracle"),
+ "C17": dict(text="spec/Output.tla models the three renderings as token streams: a pushdown acceptor for the XML subset (plus element counts and numeric leaves), a table from every entry of the plain report to the path of the value it prints, and the flattened JSON. TLC enumerates the free-text strings (all sequences of at most 2 / 3 atoms incl. markup characters, quotes, backslash, non-ASCII) and checks the escaping at atom level; the real renderings of lattice buildings, random buildings, shipped files and every enumerated string - and the documents the real program writes - are lexed by the harness and judged by TLC.",
+   design="5/C17", technique="TLA+ token-stream model (pushdown acceptor, report table) + TLC enumeration of strings + trace validation of lexed outputs"),
  "C19": dict(text="spec/Cli.tla is a finite model of option / metadata / default resolution and exit codes; TLC enumerates its configuration space (complete product in the thorough tier) and every configuration is executed by the real binary; TLC judges exit code, origin lines, effective values in --json, write-back in --oc and the per-m2 ratio against Cli!Allowed (set-valued where the statement is silent).",
    design="5/C19", technique="finite TLA+ model of the CLI + TLC enumeration of configurations + trace validation of real executions"),
 }
